@@ -1,4 +1,471 @@
-//! stub
-use crate::checks::{RunRecord, Tier};
-use crate::exec::Scratch;
-pub fn run_c14(t: Tier, s: u64, i: u64, sc: &Scratch, r: &mut RunRecord) { crate::checks::run_supply_check("C14", t, s, i, sc, r) }
+//! C14: untrusted bytes may make verification fail but never crash it. Every library call runs under
+//! catch_unwind in a watched worker process; aborts / stack overflows / hangs kill the worker and are
+//! attributed by the parent to the case that was running (its trace is written before it starts).
+//!
+//! Case kinds per seed: damaged link directory (storage faults before any signature is checked),
+//! Byzantine-but-signed odd content, faulting streams into decoders and the digest routine,
+//! damaged key files into the key importers.
+
+use crate::checks::{exec_supply, site_of, RunRecord, Tier, Trace, Violation};
+use crate::exec::{self, Scratch};
+use crate::gen::{self, GenOpts, F};
+use crate::keys::{self, KeyKind, KeySpec};
+use crate::oracle::Finding;
+use crate::prng::{Digest, Rng};
+use crate::simio::SimReader;
+use crate::world::*;
+use in_toto::crypto::{HashAlgorithm, PrivateKey, PublicKey, SignatureScheme};
+use in_toto::interchange::{DataInterchange, Json};
+use in_toto::models::Metablock;
+use serde::{Deserialize, Serialize};
+use serde_json::json;
+
+#[derive(Clone, Debug, Serialize, Deserialize, PartialEq)]
+pub struct BytesTrace {
+    /// which entry point consumes the bytes
+    pub entry: String,
+    pub data_hex: String,
+    pub scheme: String,
+    pub sched_seed: u64,
+    pub chunked: bool,
+    pub eintr_pct: u64,
+    pub fail_at: Option<usize>,
+    pub labels: Vec<String>,
+}
+
+fn scheme_of(s: &str) -> SignatureScheme {
+    match s {
+        "ed25519" => SignatureScheme::Ed25519,
+        "rsassa-pss-sha256" => SignatureScheme::RsaSsaPssSha256,
+        "rsassa-pss-sha512" => SignatureScheme::RsaSsaPssSha512,
+        "ecdsa-sha2-nistp256" => SignatureScheme::EcdsaP256Sha256,
+        o => SignatureScheme::Unknown(o.to_string()),
+    }
+}
+
+/// Execute one byte-level case; returns Ok(description) or the panic text.
+pub fn exec_bytes(t: &BytesTrace) -> Result<String, String> {
+    let data = data_encoding::HEXLOWER.decode(t.data_hex.as_bytes()).unwrap_or_default();
+    let t2 = t.clone();
+    exec::silenced(|| {
+        exec::in_fresh_thread(t.sched_seed, move || -> String {
+            let scheme = scheme_of(&t2.scheme);
+            match t2.entry.as_str() {
+                "from_pkcs8" => format!("{:?}", PrivateKey::from_pkcs8(&data, scheme).map(|k| k.key_id().clone()).map_err(|e| exec::err_class(&e))),
+                "from_ed25519" => format!("{:?}", PrivateKey::from_ed25519(&data).map(|k| k.key_id().clone()).map_err(|e| exec::err_class(&e))),
+                "from_spki" => format!("{:?}", PublicKey::from_spki(&data, scheme).map(|k| k.key_id().clone()).map_err(|e| exec::err_class(&e))),
+                "from_pem_spki" => {
+                    let s = String::from_utf8_lossy(&data).to_string();
+                    format!("{:?}", PublicKey::from_pem_spki(&s, scheme).map(|k| k.key_id().clone()).map_err(|e| exec::err_class(&e)))
+                }
+                "pubkey_json" => format!("{:?}", serde_json::from_slice::<PublicKey>(&data).map(|k| k.key_id().clone()).map_err(|e| e.to_string().len())),
+                "metablock_from_slice" => format!("{:?}", Json::from_slice::<Metablock>(&data).map(|m| m.signatures.len()).map_err(|e| exec::err_class(&e))),
+                "metablock_from_reader" => {
+                    let rd = SimReader::new(&data, t2.sched_seed, t2.chunked, t2.eintr_pct, t2.fail_at);
+                    format!("{:?}", Json::from_reader::<_, Metablock>(rd).map(|m| m.signatures.len()).map_err(|e| exec::err_class(&e)))
+                }
+                "metablock_verify" => {
+                    // parse, then verify against every key that the document itself names (none is trusted)
+                    match serde_json::from_slice::<Metablock>(&data) {
+                        Ok(m) => {
+                            let ks: Vec<PublicKey> = vec![];
+                            let r = m.verify(1, ks.iter());
+                            let ids: Vec<String> = m.signatures.iter().map(|s| s.key_id().prefix()).collect();
+                            format!("{:?} {:?}", r.is_ok(), ids)
+                        }
+                        Err(e) => format!("parse error {}", e.to_string().len()),
+                    }
+                }
+                "calculate_hashes" => {
+                    let rd = SimReader::new(&data, t2.sched_seed, t2.chunked, t2.eintr_pct, t2.fail_at);
+                    format!(
+                        "{:?}",
+                        in_toto::crypto::calculate_hashes(rd, &[HashAlgorithm::Sha256, HashAlgorithm::Sha512]).map(|(n, _)| n).map_err(|e| exec::err_class(&e))
+                    )
+                }
+                other => format!("unknown entry {other}"),
+            }
+        })
+    })
+}
+
+pub fn judge_bytes(t: &BytesTrace, rec: &mut RunRecord, seed: u64, index: u64, prop: &str) -> Vec<Finding> {
+    rec.evaluations += 1;
+    let r = exec_bytes(t);
+    let mut d = Digest::new();
+    d.update(&rec.log_digest.to_le_bytes());
+    d.str(&t.entry);
+    let mut shape = Digest::new();
+    shape.str(&t.entry);
+    for l in &t.labels {
+        shape.str(l);
+        rec.fired.push(l.clone());
+    }
+    let mut out = vec![];
+    match r {
+        Ok(desc) => {
+            let masked: String = desc.chars().map(|c| if c.is_ascii_digit() { '#' } else { c }).collect();
+            d.str(&masked);
+            shape.str(if desc.starts_with("Ok") { "ok" } else { "err" });
+            rec.verdicts[if desc.starts_with("Ok") { 0 } else { 1 }] += 1;
+        }
+        Err(p) => {
+            d.str("panic");
+            shape.str("panic");
+            rec.verdicts[2] += 1;
+            let f = Finding { prop: "C14".into(), clause: "panic-in-entry-point".into(), detail: format!("{}: {p}", t.entry) };
+            if prop == "C14" {
+                rec.own.push(Violation { seed, index, site: site_of(&f, &t.labels), finding: f.clone(), trace: Trace::Bytes(t.clone()) });
+            } else {
+                rec.cross.push(f.clone());
+            }
+            out.push(f);
+        }
+    }
+    rec.log_digest = d.finish();
+    rec.shapes.push((shape.finish() ^ (data_len_class(t) as u64), true));
+    rec.schedules.push(t.sched_seed);
+    if rec.sample.is_none() {
+        rec.sample = Some(json!({"seed": seed, "entry": t.entry, "labels": t.labels, "bytes": t.data_hex.len() / 2, "chunked": t.chunked, "eintr_pct": t.eintr_pct, "fail_at": t.fail_at}));
+    }
+    out
+}
+
+fn data_len_class(t: &BytesTrace) -> usize {
+    (t.data_hex.len() / 2).min(4096) / 16
+}
+
+fn damage(r: &mut Rng, data: &mut Vec<u8>, labels: &mut Vec<String>) {
+    let n = 1 + r.weighted(&[70, 20, 10]);
+    for _ in 0..n {
+        if data.is_empty() {
+            return;
+        }
+        match r.below(5) {
+            0 => {
+                let keep = r.idx(data.len());
+                data.truncate(keep);
+                labels.push("TRUNC".into());
+            }
+            1 | 2 => {
+                let b = r.idx(data.len() * 8);
+                data[b / 8] ^= 1 << (b % 8);
+                labels.push("FLIP".into());
+            }
+            3 => {
+                let pool: [&[u8]; 7] = [b"\0", b"\xc3\xa9", b"\xf0\x9f\x98\x80", b"}", b"\"", b"\xff\xfe", b"\x30\x82\xff\xff"];
+                let p = r.idx(data.len());
+                for (i, b) in r.pick(&pool[..]).iter().enumerate() {
+                    if p + i < data.len() {
+                        data[p + i] = *b;
+                    }
+                }
+                labels.push("OVERWRITE".into());
+            }
+            _ => {
+                // a length octet set to an extreme
+                let p = r.idx(data.len());
+                data[p] = *r.pick(&[0u8, 0x7f, 0x80, 0x81, 0x84, 0xff]);
+                labels.push("LENGTH-OCTET".into());
+            }
+        }
+    }
+}
+
+fn key_file_case(r: &mut Rng, seed: u64) -> BytesTrace {
+    let kinds = [KeyKind::Ed, KeyKind::EdPk8, KeyKind::Ecdsa, KeyKind::Rsa2048S256, KeyKind::Rsa4096S512];
+    let kind = *r.pick(&kinds);
+    let k = keys::key(KeySpec { kind, seed: r.next() >> 16 });
+    let scheme = match kind {
+        KeyKind::Ed | KeyKind::EdPk8 => "ed25519",
+        KeyKind::Ecdsa => "ecdsa-sha2-nistp256",
+        KeyKind::Rsa2048S256 | KeyKind::Rsa4096S256 => "rsassa-pss-sha256",
+        _ => "rsassa-pss-sha512",
+    };
+    let (entry, mut data): (&str, Vec<u8>) = match r.below(5) {
+        0 => ("from_pkcs8", keys::pkcs8_of(k.spec)),
+        1 => ("from_spki", k.public.as_spki().unwrap_or_default()),
+        2 => {
+            let der = k.public.as_spki().unwrap_or_default();
+            let b64 = data_encoding::BASE64.encode(&der);
+            let mut pem = String::from("-----BEGIN PUBLIC KEY-----\n");
+            for c in b64.as_bytes().chunks(64) {
+                pem.push_str(std::str::from_utf8(c).unwrap());
+                pem.push('\n');
+            }
+            pem.push_str("-----END PUBLIC KEY-----\n");
+            ("from_pem_spki", pem.into_bytes())
+        }
+        3 => ("pubkey_json", serde_json::to_vec(&k.public).unwrap()),
+        _ => ("from_ed25519", r.bytes(64)),
+    };
+    let mut labels = vec![format!("keyfile:{entry}")];
+    // also offer the right bytes under a wrong scheme now and then
+    let scheme = if r.chance(1, 6) { *r.pick(&["ed25519", "rsassa-pss-sha256", "ecdsa-sha2-nistp256", "weird"]) } else { scheme };
+    if r.chance(9, 10) {
+        damage(r, &mut data, &mut labels);
+    }
+    BytesTrace { entry: entry.into(), data_hex: data_encoding::HEXLOWER.encode(&data), scheme: scheme.into(), sched_seed: seed, chunked: false, eintr_pct: 0, fail_at: None, labels }
+}
+
+fn stream_case(r: &mut Rng, seed: u64, doc: Vec<u8>) -> BytesTrace {
+    let mut data = doc;
+    let mut labels = vec![];
+    let entry = *r.pick(&["metablock_from_reader", "metablock_from_slice", "metablock_verify", "calculate_hashes"]);
+    if entry == "calculate_hashes" {
+        let n = *r.pick(&[0usize, 1, 1023, 1024, 1025, 2048, 8192, 100_000]);
+        data = r.bytes(n);
+    } else if r.chance(4, 5) {
+        damage(r, &mut data, &mut labels);
+    }
+    let chunked = r.chance(3, 4);
+    let eintr_pct = *r.pick(&[0u64, 0, 10, 50]);
+    let fail_at = if r.chance(1, 3) && !data.is_empty() { Some(r.idx(data.len() + 1)) } else { None };
+    if chunked {
+        labels.push("CHUNK".into());
+    }
+    if eintr_pct > 0 {
+        labels.push("EINTR".into());
+    }
+    if fail_at.is_some() {
+        labels.push("EIO@offset".into());
+    }
+    labels.push(format!("stream:{entry}"));
+    BytesTrace { entry: entry.into(), data_hex: data_encoding::HEXLOWER.encode(&data), scheme: "ed25519".into(), sched_seed: seed, chunked, eintr_pct, fail_at, labels }
+}
+
+/// Byzantine-but-signed / structurally odd content.
+fn odd_content(t: &mut crate::supply::SupplyTrace, r: &mut Rng) -> String {
+    let which = r.below(12);
+    let nfiles = t.root.files.len();
+    match which {
+        0 => {
+            // a signature key id with a two-byte character across byte 8 (still 64 bytes long)
+            if nfiles == 0 {
+                return "none".into();
+            }
+            let fi = r.idx(nfiles);
+            let pre = r.idx(8);
+            let id = format!("{}\u{e9}{}", "a".repeat(pre), "b".repeat(64 - pre - 2));
+            let doc = match &mut t.root.files[fi].body {
+                Body::Link(_) => &mut t.root.files[fi].doc,
+                Body::Layout(inner) => &mut inner.doc,
+            };
+            doc.ops.push(DocOp::Set { ptr: "/signatures/0/keyid".into(), value: json!(id) });
+            "ODD-KEYID-NONASCII".into()
+        }
+        1 | 2 => {
+            // validly signed link with non-normalized paths in materials and products
+            let paths = ["x/../y", "./a", "a//b", "/abs/p", "../up", "a/./b", "", ".", "a/", "é/ü"];
+            let mut any = false;
+            for f in t.root.files.iter_mut() {
+                if let Body::Link(l) = &mut f.body {
+                    if r.chance(1, 2) {
+                        let p = r.pick(&paths).to_string();
+                        l.materials.insert(p.clone(), gen::digest_of(31337, false));
+                        if which == 1 {
+                            l.products.insert(p, gen::digest_of(31337, false));
+                        } else {
+                            l.products.insert(p, gen::digest_of(31338, false));
+                        }
+                        any = true;
+                    }
+                }
+            }
+            if any { "ODD-PATHS".into() } else { "none".into() }
+        }
+        3 => {
+            let si = r.idx(t.root.layout.steps.len().max(1));
+            if let Some(s) = t.root.layout.steps.get_mut(si) {
+                s.threshold = *r.pick(&[0u32, u32::MAX, u32::MAX - 1, 1 << 31]);
+            }
+            "ODD-THRESHOLD".into()
+        }
+        4 => {
+            let names = ["", "*", "[", "a/b", "..", "é", "a.b", "?", "{", " ", "a\nb"];
+            let si = r.idx(t.root.layout.steps.len().max(1));
+            let nn = r.pick(&names).to_string();
+            if let Some(s) = t.root.layout.steps.get_mut(si) {
+                let old = s.name.clone();
+                s.name = nn.clone();
+                for f in t.root.files.iter_mut() {
+                    if let Some(rest) = f.name.strip_prefix(&format!("{}.", old)) {
+                        let candidate = format!("{}.{}", nn, rest);
+                        if !candidate.contains('/') && !candidate.contains('\n') && !nn.is_empty() {
+                            f.name = candidate;
+                        }
+                    }
+                }
+            }
+            "ODD-STEPNAME".into()
+        }
+        5 => {
+            let pats = ["[", "**a", "", "\\", "a**", "[!", "[]", "***", "[z-a]", "é*"];
+            let si = r.idx(t.root.layout.steps.len().max(1));
+            if let Some(s) = t.root.layout.steps.get_mut(si) {
+                let kind = *r.pick(&["ALLOW", "DISALLOW", "REQUIRE", "CREATE", "DELETE", "MODIFY"]);
+                let rule = vec![kind.to_string(), r.pick(&pats).to_string()];
+                if r.chance(1, 2) {
+                    s.exp_mat.insert(0, rule);
+                } else {
+                    s.exp_prod.insert(0, rule);
+                }
+            }
+            "ODD-PATTERN".into()
+        }
+        6 => {
+            for f in t.root.files.iter_mut() {
+                if let Body::Link(l) = &mut f.body {
+                    l.retval = Some(*r.pick(&[i32::MIN as i64, i32::MAX as i64, -1, i32::MAX as i64 + 1, i64::MIN]));
+                }
+            }
+            "ODD-RETVAL".into()
+        }
+        7 => {
+            // empty collections everywhere
+            t.root.layout.steps.clear();
+            t.root.files.clear();
+            if r.chance(1, 2) {
+                t.root.layout.key_table.clear();
+            }
+            "ODD-EMPTY-LAYOUT".into()
+        }
+        8 => {
+            // a delegated level that refers to itself through a symlinked sub-directory
+            "none".into()
+        }
+        9 => {
+            let exps = ["9999-12-31T23:59:60Z", "0000-01-01T00:00:00Z", "2026-02-30T00:00:00Z", "2026-01-01T24:00:00Z", "+10000-01-01T00:00:00Z", "2026-01-01T00:00:00+24:00", "2026-01-01T00:00:00.Z", "2026-01-01", ""];
+            t.root.layout.expires = r.pick(&exps).to_string();
+            "ODD-EXPIRES".into()
+        }
+        10 => {
+            // MATCH rules pointing at odd places
+            let si = r.idx(t.root.layout.steps.len().max(1));
+            if let Some(s) = t.root.layout.steps.get_mut(si) {
+                let from = if r.chance(1, 2) { s.name.clone() } else { "no-such-step".to_string() };
+                let rule: Rule = vec!["MATCH".into(), r.pick(&["*", "[", "", "x/../y"]).to_string(), "IN".into(), r.pick(&["", "/", "..", "a/", "é"]).to_string(), "WITH".into(), "PRODUCTS".into(), "IN".into(), r.pick(&["", "/", "..", "b//"]).to_string(), "FROM".into(), from];
+                s.exp_mat.insert(0, rule.clone());
+                s.exp_prod.insert(0, rule);
+            }
+            "ODD-MATCH".into()
+        }
+        _ => {
+            // a link whose name / command / byproducts carry hostile text
+            for f in t.root.files.iter_mut() {
+                if let Body::Link(l) = &mut f.body {
+                    l.stdout = Some(gen::text(r));
+                    l.stderr = Some(gen::text(r));
+                    l.command = vec![gen::text(r), gen::text(r)];
+                    l.other.insert(gen::text(r), gen::text(r));
+                }
+            }
+            "ODD-TEXT".into()
+        }
+    }
+}
+
+pub fn run_c14(tier: Tier, seed: u64, index: u64, scratch: &Scratch, rec: &mut RunRecord) {
+    let mut r = Rng::stream(seed, "faults");
+    let kind = r.weighted(&[45, 25, 15, 15]);
+    match kind {
+        0 | 1 => {
+            let opts = GenOpts { ed_only_pct: if tier == Tier::Quick { 100 } else { 85 }, delegation_pct: 20, max_depth: 2, ..GenOpts::default() };
+            let (mut t, plan) = gen::baseline(seed, &opts);
+            if kind == 0 {
+                // storage faults on the link directory, before any signature is checked
+                let n = 1 + r.weighted(&[40, 30, 20, 10]);
+                let fs = [F::ByteFlip, F::ByteTrunc, F::ByteOverwrite, F::Garbage, F::IsDir, F::Dangling, F::DupFile, F::ByteOverwrite, F::ByteFlip];
+                let mut applied = 0;
+                let mut tries = 0;
+                while applied < n && tries < 10 {
+                    tries += 1;
+                    if gen::apply_fault(&mut t, &plan, *r.pick(&fs), &mut r, false) {
+                        applied += 1;
+                    }
+                }
+            } else {
+                let l = odd_content(&mut t, &mut r);
+                t.labels.push(l);
+                if r.chance(1, 3) {
+                    let l = odd_content(&mut t, &mut r);
+                    t.labels.push(l);
+                }
+            }
+            write_current(scratch, &Trace::Supply(t.clone()));
+            exec_supply("C14", &t, scratch, rec, seed, index);
+        }
+        2 => {
+            // a real signed document as the stream's payload
+            let opts = GenOpts { ed_only_pct: 100, delegation_pct: 0, max_steps: 2, ..GenOpts::default() };
+            let (t, _) = gen::baseline(seed, &opts);
+            let (stored, _) = build(&t.root, &t.keys, &[]);
+            let doc = stored[r.idx(stored.len())].bytes.clone();
+            let bt = stream_case(&mut r, seed, doc);
+            write_current(scratch, &Trace::Bytes(bt.clone()));
+            judge_bytes(&bt, rec, seed, index, "C14");
+        }
+        _ => {
+            let bt = key_file_case(&mut r, seed);
+            write_current(scratch, &Trace::Bytes(bt.clone()));
+            judge_bytes(&bt, rec, seed, index, "C14");
+        }
+    }
+}
+
+/// The trace of the case about to run, so that the parent can attribute a worker crash.
+pub fn write_current(scratch: &Scratch, t: &Trace) {
+    let p = std::path::PathBuf::from(format!("/dev/shm/scsim-current-{}.json", std::process::id()));
+    let _ = std::fs::write(p, serde_json::to_vec(t).unwrap_or_default());
+    let _ = scratch;
+}
+
+pub fn replay(prop: &str, t: &BytesTrace, rec: &mut RunRecord) -> Vec<Finding> {
+    judge_bytes(t, rec, 0, 0, prop).into_iter().filter(|f| f.prop == prop).collect()
+}
+
+pub fn minimise(prop: &str, clause: &str, t: &BytesTrace) -> (BytesTrace, bool) {
+    let mut cur = t.clone();
+    let mut changed = false;
+    let still = |c: &BytesTrace| {
+        let mut rec = RunRecord::default();
+        judge_bytes(c, &mut rec, 0, 0, prop).iter().any(|f| f.prop == prop && f.clause == clause)
+    };
+    // shrink the data from the end and the front, drop stream faults
+    for _ in 0..64 {
+        let mut progress = false;
+        let n = cur.data_hex.len() / 2;
+        let mut cands = vec![];
+        if n > 0 {
+            for cut in [n / 2, n / 4, 1] {
+                if cut > 0 && cut <= n {
+                    let mut c = cur.clone();
+                    c.data_hex = cur.data_hex[..(n - cut) * 2].to_string();
+                    cands.push(c);
+                    let mut c = cur.clone();
+                    c.data_hex = cur.data_hex[cut * 2..].to_string();
+                    cands.push(c);
+                }
+            }
+        }
+        if cur.chunked || cur.eintr_pct > 0 || cur.fail_at.is_some() {
+            let mut c = cur.clone();
+            c.chunked = false;
+            c.eintr_pct = 0;
+            c.fail_at = None;
+            cands.push(c);
+        }
+        for c in cands {
+            if c != cur && still(&c) {
+                cur = c;
+                progress = true;
+                changed = true;
+                break;
+            }
+        }
+        if !progress {
+            break;
+        }
+    }
+    (cur, changed)
+}
